@@ -125,11 +125,14 @@ def check_chain(case):
     try:
         cur = obj; times = [ser_modified_us(cur)]
         for op in ops:
+            prev, prev_snapshot = cur, (copy.deepcopy(cur) if isinstance(cur, dict) else cur.serialize())
             if op == 'nv': cur = V.new_version(cur, name='n%d' % len(times))
             elif op == 'mark': cur = MK.add_markings(cur, 'marking-definition--613f2e26-407d-48c7-9eca-b8e91df99dc9', None)
             elif op == 'unmark': cur = MK.clear_markings(cur, None) if as_json(cur).get('object_marking_refs') else V.new_version(cur, name='u')
             elif op == 'revoke': cur = V.revoke(cur)
             times.append(ser_modified_us(cur))
+            if (copy.deepcopy(prev) if isinstance(prev, dict) else prev.serialize()) != prev_snapshot:
+                return ('chain#every operation leaves the object it was applied to untouched', f'{kind} ops={ops}: operation {op} changed its input object', {})
     finally:
         V.get_timestamp = real_clock
     if any(b <= a for a, b in zip(times, times[1:])):
@@ -164,7 +167,10 @@ def run(chk):
     chk.bounded('native refusals: unmodifiable properties, non-later modified, revoked', [(k, o) for k, o in objs if k != 'dict-unregistered' and 'Relationship' not in k], check_refusals,
                 classify=lambda c: c[0], bound='each base object')
     ops = ['nv', 'mark', 'unmark', 'revoke']
-    chains = [(k, o, seq) for (k, o) in objs[:8] if not isinstance(o, dict) and 'Relationship' not in k
+    import stix2.markings as MK
+    TLP = 'marking-definition--f88d31f6-486f-44da-b317-01333bde0b82'
+    marked = [(k + '+marked', MK.add_markings(o, TLP, None)) for k, o in objs[:8] if 'Relationship' not in k and k != 'dict-unregistered']
+    chains = [(k, o, seq) for (k, o) in objs[:8] + marked if k not in ('dict-unregistered',) and 'Relationship' not in k
               for n in range(1, 5 if chk.tier == 'thorough' else 4) for seq in itertools.product(ops, repeat=n) if 'revoke' not in seq[:-1]]
     chk.bounded('native chains: frozen clock', chains, check_chain, classify=lambda c: (c[0], c[2]), bound='operation sequences of length <= ' + ('4' if chk.tier == 'thorough' else '3') + ' over {new_version, add marking, clear marking, revoke}')
     if chk.tier == 'thorough':
